@@ -627,7 +627,7 @@ func c05Init(mc.Tier) (int, error) {
 
 func init() {
 	register(&mc.Check{
-		ID: "C05", Title: "CRL yields OK only if every distribution point gave an authentic, current CRL", DesignRef: "DESIGN.md §4 C05",
+		ID: "C05", Extra: clockPass("C05", "C05T"), Title: "CRL yields OK only if every distribution point gave an authentic, current CRL", DesignRef: "DESIGN.md §4 C05",
 		Rule: fmt.Sprintf("Every assignment of one of %d bundle behaviours (clean, lists the certificate, wrong signer, expired, no nextUpdate, unknown critical extension, delta variants with number / indicator at and around the boundary, "+
 			"unobtainable delta, fetch failure, ...) to the 1..3 distribution points actually contacted (full product for <=2 points; 3 points: <=1 deviation in quick, full product in thorough) x caller-supplied fetcher / real HTTPFetcher over a scripted transport "+
 			"x RSA/EC issuer x freshest-CRL pointer in the certificate x issuer with/without cRLSign; CRLs are hand-encoded DER, the verdict is judged against the generating descriptions.", len(c05Behaviours)),
